@@ -414,6 +414,10 @@ class Evaluator:
                     raise Unknown("keyword arguments in a container mutation")
                 getattr(recv, st.value.func.attr)(*args)
                 continue
+            if isinstance(st, ast.Expr) and isinstance(st.value, ast.Call) and "__call__" in self.hooks:
+                r_ = self.hooks["__call__"](self, st.value, env)
+                if r_ is not NotImplemented:
+                    continue  # an expression statement the rule's model knows (e.g. a warning): evaluated for effect only
             if isinstance(st, ast.For) and not st.orelse:
                 it = self.ev(st.iter, env)
                 if not isinstance(it, (list, tuple, range, str, dict, set, frozenset)) and not hasattr(it, "__next__"):
